@@ -400,17 +400,18 @@ def reg(c):
 
 
 reg(PoolCheck(
-    "C01", P(sizes=[0, 0, 1, 1, 2, 2, 3, 3, 4, None], w={"apply": 8, "map": 8, "start": 8, "reject": 0, "probe": 0.2, "grow_size": 1.5, "set_same": 3}, inner_ops=0.25, cb=0.6),
+    "C01", P(sizes=[0, 0, 1, 1, 2, 2, 3, 3, 4, None], w={"apply": 8, "map": 8, "start": 8, "reject": 0, "probe": 0.2, "grow_size": 1.5, "set_same": 3}, inner_ops=0.25, cb=0.6, init_size=0.45, npools=[1, 2, 2]),
     "random scenarios (1-2 pools, sizes 0..4/unbounded, 5-35 operations incl. spawn/cancel/flush/close placed at iteration "
     "boundaries and inside workers/callbacks/iterators); non-trivial = a task began into the last free slot and tasks ended in "
     ">=2 different ways; distinct = distinct (operation,situation) sequence + event-bigram signature",
     lambda s: s.get("C01.begin_at_last_slot", 0) > 0 and sum(1 for k in ("end.return", "end.raise", "end.cancelled") if s.get(k)) >= 2,
     6000, 120000,
-    floors={"C01.begin_at_last_slot": 2000, "C01.is_full.full": 200, "C01.is_full.room": 500, "C01.reconfigured_empty_pool.waiting": 50},
+    floors={"C01.begin_at_last_slot": 2000, "C01.is_full.full": 200, "C01.is_full.room": 500, "C01.reconfigured_empty_pool.waiting": 50,
+            "C01.size_given_by_assignment": 500, "C01.size_given_by_assignment.was_unbounded": 50, "C01.same_size_assigned.busy": 100},
 ))
 
 reg(PoolCheck(
-    "C02", P(w={"cancel": 7, "cancel_group": 5, "cancel_all": 2, "stop": 6, "flush": 4, "intruder": 4, "reject": 0, "probe": 1, "set_size": 1.2},
+    "C02", P(w={"cancel": 7, "cancel_group": 5, "cancel_all": 2, "stop": 6, "flush": 4, "intruder": 4, "reject": 0, "probe": 1, "set_size": 1.2, "gac": 1.2},
              cb=0.7, cb_gate=0.35, inner_ops=0.25),
     "cancel/flush-heavy random scenarios with slow, gated and raising callbacks; cancellations placed by conductor, intruder tasks, "
     "workers and callbacks incl. before a task's first step; non-trivial = a cancellation was delivered and a flush or async callback overlapped; "
